@@ -344,7 +344,7 @@ func cmdCheck(args []string) {
 				continue
 			}
 		}
-		if nl := vcOf[ob].newBareLoop(&led); nl != "" && !decisiveKind(ob.Kind) {
+		if nl := vcOf[ob].newBareLoop(&led, ob); nl != "" && !decisiveKind(ob.Kind) {
 			behindNewFn = append(behindNewFn, ob.Name+" (the function has a new loop \""+nl+"\", which has no invariant)")
 			continue
 		}
@@ -382,7 +382,7 @@ func cmdCheck(args []string) {
 				continue
 			}
 		}
-		if nl := vcOf[ob].newBareLoop(&led); nl != "" && !decisiveKind(ob.Kind) {
+		if nl := vcOf[ob].newBareLoop(&led, ob); nl != "" && !decisiveKind(ob.Kind) {
 			fmt.Printf("UNDECIDED property=%s obligation=%q\n", *prop, ob.Name+" (the function has a new loop \""+nl+"\", which has no invariant)")
 			undecidedNew = append(undecidedNew, ob)
 			continue
@@ -662,7 +662,7 @@ func repoCommit(dir string) string {
 
 func decisiveKind(k string) bool {
 	switch k {
-	case "map-order", "forbid-call", "immutable-store", "loop-complete", "loop-nobreak", "loop-noreturn", "shared-write":
+	case "map-order", "forbid-call", "immutable-store", "loop-complete", "loop-nobreak", "loop-noreturn", "shared-write", "callback":
 		return true
 	}
 	return false
@@ -673,7 +673,7 @@ func decisiveKind(k string) bool {
 // newBareLoop: the text of a loop of the function that has no contract and did not exist (as a loop without
 // contract) on the pinned tree. What has to be proved across such a loop needs an invariant nobody has
 // written yet: undecided, not violated.
-func (vc *VC) newBareLoop(led *Ledger) string {
+func (vc *VC) newBareLoop(led *Ledger, ob *Obligation) string {
 	if led.BareLoops == nil {
 		return ""
 	}
@@ -681,8 +681,24 @@ func (vc *VC) newBareLoop(led *Ledger) string {
 	for _, t := range led.BareLoops[vc.e.fname(vc.fn)] {
 		cnt[t]++
 	}
-	for _, t := range vc.bareLoops {
+	// source line of the obligation (0 when it has no single position: postconditions of paths, invariants)
+	obLine := 0
+	if parts := strings.Split(ob.Pos, ":"); len(parts) >= 2 {
+		obLine, _ = strconv.Atoi(parts[1])
+	}
+	// only as many loops can be new as the function has more contract-less loops than on the pinned tree (a
+	// loop whose header text was edited is not a new loop)
+	extra := len(vc.bareLoops) - len(led.BareLoops[vc.e.fname(vc.fn)])
+	for i, t := range vc.bareLoops {
+		if extra <= 0 {
+			break
+		}
 		if cnt[t] == 0 {
+			extra--
+			// a new loop that is not nested in another one cannot influence what is checked before it
+			if at := vc.bareLoopAt[i]; at > 0 && obLine > 0 && obLine < at {
+				continue
+			}
 			return t
 		}
 		cnt[t]--
